@@ -32,7 +32,7 @@ FLOORS = {"diagnostics_rendered": 500, "snippets_checked": 500, "words_checked":
 
 
 def plan(tier, seed):
-    n = 64 if tier == "quick" else 1600
+    n = 480 if tier == "quick" else 6400
     return {"n_cases": n, "floors": {"evaluations": n // 2}}
 
 
